@@ -66,7 +66,7 @@ theorem repLeafY (n : Nat) : LeafY (RepIs n) where
   setLoopStop := fun b => by unfold setLoopStop; rep_same_tac
   clearDone := by unfold clearDone; rep_same_tac
   unregister := fun u => by unfold unregisterWatcher; rep_same_tac
-  registerNew := fun w => by
+  registerNew := fun w _ => by
     apply rep_same; intro s; unfold registerNew registerChecked; simp only
     split
     · rfl
